@@ -66,8 +66,8 @@ type Fixture struct {
 	// read-only operands too)
 	msmScalars []*secp256k1.Scalar
 	msmPoints  []*secp256k1.Point
-	modelQ   []ref.Pt
-	modelD   []*big.Int
+	modelQ     []ref.Pt
+	modelD     []*big.Int
 }
 
 func hx(b []byte) string { return kernel.Hex(b) }
